@@ -65,6 +65,30 @@ type igBeh struct {
 // rule list can suppress it.
 var ruleName = map[string]string{"r1": "function/arguments", "r2": "function/argument-type"}
 
+// the diagnostic of the lint plugin (no rule name): abstract rule r4
+const pluginMessage = "c12-plugin-diagnostic"
+const pluginAnnotation = "@plugin: c12plug"
+
+func ruleAbsMsg(r, msg string) string {
+	if msg == pluginMessage {
+		return "r4"
+	}
+	return ruleAbs(r)
+}
+
+// installPlugin writes the plugin (a shell script answering one rule-less ERROR) and puts it on PATH
+func installPlugin() (string, error) {
+	dir, err := os.MkdirTemp("", "vhc12plug_")
+	if err != nil {
+		return "", err
+	}
+	script := "#!/bin/sh\ncat > /dev/null\nprintf '{\"errors\":[{\"Severity\":1,\"Message\":\"" + pluginMessage + "\"}]}\\n'\n"
+	if err := os.WriteFile(filepath.Join(dir, "falco-c12plug"), []byte(script), 0o755); err != nil {
+		return dir, err
+	}
+	return dir, os.Setenv("PATH", dir+string(os.PathListSeparator)+os.Getenv("PATH"))
+}
+
 func ruleAbs(r string) string {
 	switch r {
 	case "function/arguments":
@@ -170,6 +194,19 @@ func render(b *igBeh, style int, seed int64, neutral bool, decorate bool) render
 	skipName := ""
 	depth := 0
 	ind := func() string { return strings.Repeat("  ", depth) }
+	// sites that carry the plugin diagnostic (pairs (site, r4) of the model) get the annotation as the last
+	// leading comment of their statement
+	plugged := map[int]bool{}
+	for _, p := range b.All {
+		if p.Rule == "r4" {
+			plugged[p.Site] = true
+		}
+	}
+	plug := func(n int) {
+		if plugged[n] {
+			lines = append(lines, ind()+[]string{"# ", "// "}[int((seed+int64(n))%2)]+pluginAnnotation)
+		}
+	}
 	gap := func(n int) {
 		ds := dirAt[n]
 		if decorate && len(ds) > 0 && rng.Intn(3) == 0 {
@@ -221,6 +258,7 @@ func render(b *igBeh, style int, seed int64, neutral bool, decorate bool) render
 			depth++
 			lines = append(lines, ind()+"#FASTLY "+subMacro[path[0]])
 		case "stmt":
+			plug(n)
 			lines = append(lines, ind()+stmtTexts[int((seed+int64(n))%int64(len(stmtTexts)))])
 			siteLine[len(lines)] = n
 		case "trail":
@@ -231,6 +269,7 @@ func render(b *igBeh, style int, seed int64, neutral bool, decorate bool) render
 				lines[len(lines)-1] += " " + comment(d, style, rng, neutral)
 			}
 		case "if_open":
+			plug(n)
 			lines = append(lines, ind()+"if ("+condText+") {")
 			siteLine[len(lines)] = n
 			depth++
@@ -291,7 +330,7 @@ func lintSrc(r rendered) lintObs {
 	}
 	for _, e := range l.Errors {
 		if site, ok := r.siteLine[e.Token.Line]; ok {
-			o.pairs[fmt.Sprintf("%d:%s", site, ruleAbs(string(e.Rule)))] = true
+			o.pairs[fmt.Sprintf("%d:%s", site, ruleAbsMsg(string(e.Rule), e.Message))] = true
 			continue
 		}
 		o.others = append(o.others, fmt.Sprintf("%s|%s|%d:%d|%s", e.Rule, e.Severity, e.Token.Line, e.Token.Position, e.Message))
@@ -386,7 +425,7 @@ func lintBinary(falco string, r rendered) lintObs {
 	for _, v := range d.LintErrors {
 		for _, e := range v {
 			if site, ok := r.siteLine[e.Token.Line]; ok {
-				o.pairs[fmt.Sprintf("%d:%s", site, ruleAbs(e.Rule))] = true
+				o.pairs[fmt.Sprintf("%d:%s", site, ruleAbsMsg(e.Rule, e.Message))] = true
 				continue
 			}
 			o.others = append(o.others, fmt.Sprintf("%s|%s|%d:%d|%s", e.Rule, e.Severity, e.Token.Line, e.Token.Position, e.Message))
@@ -478,6 +517,14 @@ func c12Replay(args []string) int {
 	falco := fs.String("falco", "", "falco binary: every -bin-every-th case is also linted by `falco lint -json` with its default configuration")
 	binEvery := fs.Int("bin-every", 0, "see -falco")
 	fs.Parse(args) // nolint:errcheck
+	plugDir, err := installPlugin()
+	if plugDir != "" {
+		defer os.RemoveAll(plugDir)
+	}
+	if err != nil {
+		fmt.Fprintln(os.Stderr, "cannot install the lint plugin:", err)
+		return 2
+	}
 	var styles []int
 	alt := *stylesArg == "alt" // alternate between {//, mixed} and {#, /* */} from case to case
 	if alt {
@@ -491,7 +538,7 @@ func c12Replay(args []string) int {
 	out := hx.NewOut()
 	defer out.Close()
 	n := 0
-	err := hx.Lines(func(line []byte) error {
+	err = hx.Lines(func(line []byte) error {
 		var b igBeh
 		if err := json.Unmarshal(line, &b); err != nil {
 			return err
